@@ -32,10 +32,10 @@ def main():
     nfix = sum(1 for l in open(os.path.join(V, "seeded", "INDEX.fixes.md")) if l.startswith("| revert")) if os.path.exists(os.path.join(V, "seeded", "INDEX.fixes.md")) else 0
     text = """## 7. Seeded changes and which checks catch them
 
-`/verif/seeded/<id>/` holds **%d changes that break a property** (`M-*`), written by independent sub-agents over six
+`/verif/seeded/<id>/` holds **%d changes that break a property** (`M-*`), written by independent sub-agents over seven
 rounds (each given only one property's text and its own scratch worktree of /repo, nothing from /verif; from round 2 on
 additionally one sentence saying where to look or what had already been done, so that it would do something different),
-and **%d behaviour-preserving refactors** (`E-*`, four rounds). Each `M-*` was **confirmed by me** with
+and **%d behaviour-preserving refactors** (`E-*`, five rounds). Each `M-*` was **confirmed by me** with
 `tools/confirm_mutant.sh` in a scratch worktree: the patch applies, the whole pinned suite is rebuilt (`ninja -k 0`, no
 failing target other than the two that never build here) and passes, the demonstration exits 0 without and non-zero with
 the change (`seeded/<id>/confirm.txt`, `meta.json`). None is ever committed to /repo; `tools/seeded.py` applies each to a
@@ -54,7 +54,7 @@ D20, D22, D23) and two engine bugs of mine (section 6).
 %s
 
 **Behaviour-preserving changes.** To test the other direction ("never raise an alarm on code where the property
-holds") sub-agents were asked, in four rounds, for a realistic refactor of the code a property is anchored in that keeps
+holds") sub-agents were asked, in five rounds, for a realistic refactor of the code a property is anchored in that keeps
 behaviour identical for every instantiation and input (if/else for conditional expressions, hoisted sub-expressions,
 inlined or extracted helpers, `if constexpr` for tag-dispatch structs, named locals, De Morgan, loops rewritten, aliases
 …), each with its own differential argument (`seeded/E-*/notes.md`). They are part of `tools/seeded.py`'s run; the
@@ -78,7 +78,7 @@ floors fail the check when instances vanish, and references state comparisons on
 
 ---------------------------------------------------------------------------------------------------------------------
 
-""" % (n, len(e), nfix, len(reported), n, len(own), (", ".join(not_rep) + " (its property, C17, is not applicable)") if not_rep else "none", len(missed_first), "\n".join(m), "\n".join(e))
+""" % (n, len(e), nfix, len(reported), n, len(own), "M-C04-5 (inside Knuth's division, the one part of the multi-limb arithmetic that is not decided, see 2.5b) and M-C17-1 (its property, C17, is not applicable)" if not_rep == ["M-C04-5", "M-C17-1"] else (", ".join(not_rep) or "none"), len(missed_first), "\n".join(m), "\n".join(e))
     p = os.path.join(V, "DESIGN.md")
     s = open(p).read()
     a, b = s.index("## 7. Seeded changes"), s.index("## 8. Layout")
